@@ -204,6 +204,7 @@ func c09Spec(kind, db, coll, part string, ts uint64, id int64) *opSpec {
 func runC09(tier string) *vf.Run {
 	run := vf.NewRun("C09", tier, "exploration")
 	run.Exhaustive = true
+	run.Extra("exhaustive_part", "the (kind x source database x mapping shape) cell table is enumerated completely; name fillings, map iteration orders and the bookkeeping scenarios are sampled")
 	run.Rule = "cell = operation kind (18 op-message types, 4 API events, 5 DML message types inside ReplicateMessage; the 3 readiness probes are observed inside them) x source database {\"\", default, d1, d2} x mapping shape {none, exact, whole-db, unrelated (other database), unrelated (same database, other collection), exact+whole-db together}; each cell with several random name fillings; the exact+whole-db shape is repeated 50 times per cell because the mapping table is ranged in random order. Every recorded call of every cell is compared with the reference mapping. Plus bookkeeping scenarios per mapped shape x database: mapped drop of a collection / partition / database, then an older operation on the SOURCE name (must be skipped) and an operation on a source object that merely bears the MAPPED name (must not be skipped); and a drop delivered while the downstream call is in flight under a whole-database mapping (must end as a successful skip). Non-trivial = every cell; distinct by (kind, db, shape)."
 	run.Assumptions = []string{
 		"the recording handler accepts every call (no downstream catalog) in the cell sweep, so every probe is answered positively and the operation proceeds to its downstream call",
